@@ -201,5 +201,9 @@ CATALOG = [
   ("snap-oui-ip", {"l2": "snap", "l3": "ip", "l4": "udp", "oui": 0x080007, "ip_src": 0x0a00000c, "ip_dst": 0x0a00000d,
                    "sport": 68, "dport": 67}),
   ("qinq", {"l3": "ip", "l4": "udp", "vlan": [2, 10], "vlan2": [3, 20]}),
+  # 802.3 inside an 802.1Q tag: tag, length field, then LLC / LLC+SNAP
+  ("llc-vlan", {"l2": "llc", "l3": "raw", "pay": 22, "vlan": [4, 300]}),
+  ("snap-ip-vlan", {"l2": "snap", "l3": "ip", "l4": "tcp", "vlan": [1, 5], "ip_src": 0x0a00000e, "ip_dst": 0x0a00000f,
+                    "sport": 179, "dport": 50000, "tos": 0xc0}),
 ]
 CATALOG_BY_NAME = dict(CATALOG)
